@@ -8,7 +8,7 @@ import z3
 import datetime
 import operator as _op
 from .vals import *   # noqa
-from .interp import (Prod, SliceSym, OutOfReach, PyRaise, Infeasible, TypeRef, ExcClass, ExcInst, FuncRef, ClassRef, Obj,
+from .interp import (DDict, Prod, SliceSym, OutOfReach, PyRaise, Infeasible, TypeRef, ExcClass, ExcInst, FuncRef, ClassRef, Obj,
                      NamedTupleClass, BoundMethod, Closure, Builtin, ExtRef, ModRef, TDelta, HostFn, int_term,
                      real_term, py_floordiv, py_mod, real_floor, real_ceil, real_trunc, norm_index, slice_bounds,
                      plain, KIND_TYPE, T_INT, T_FLOAT, T_BOOL, T_STR, T_LIST, T_TUPLE, T_NONE, T_COMPLEX,
@@ -425,6 +425,8 @@ class Ops(object):
                 if isinstance(o, (Closure, FuncRef, Obj, Builtin)):
                     return False
                 raise OutOfReach('identity against %r' % (o,))
+            if isinstance(a, HostFn) and isinstance(b, HostFn) and a.sym is not None and b.sym is not None:
+                return ctx.branch(a.sym.val == b.sym.val)      # two host callables are the same object iff their values are
             return a is b
         raise OutOfReach('`is` on values (%r, %r)' % (type(a).__name__, type(b).__name__))
 
@@ -557,6 +559,10 @@ class Ops(object):
                     return base[idx]
             except TypeError:
                 raise PyRaise('TypeError', ExcInst('TypeError'))
+            if isinstance(base, DDict):
+                self.world.note_write(it, base, idx)
+                base[idx] = []
+                return base[idx]
             raise PyRaise('KeyError', ExcInst('KeyError'))
         if isinstance(base, SymMapView):
             return base.getitem(it, idx)
@@ -693,6 +699,12 @@ class Ops(object):
     def delitem(self, it, base, idx):
         if isinstance(base, SymMapView):
             return base.delitem(it, idx)
+        if isinstance(base, dict) and not isinstance(idx, Sym):
+            if idx in base:
+                self.world.note_write(it, base, idx)
+                del base[idx]
+                return
+            raise PyRaise('KeyError', ExcInst('KeyError'))
         raise OutOfReach('del on %r' % (type(base).__name__,))
 
     def unpack(self, it, v, n):
